@@ -111,6 +111,9 @@ func (x *Exec) buildVC(o *Obligation) *VC {
 	if _, ok := symTab["ix"]; ok {
 		vc.Asserts = append(vc.Asserts, ixAxiom())
 	}
+	if _, ok := symTab["walkObj"]; ok && usesSymbol(append(append([]*Term{}, vc.Asserts...), o.Goal), "walkObj") {
+		vc.Asserts = append(vc.Asserts, x.walkAxiom())
+	}
 	return vc
 }
 
@@ -402,4 +405,39 @@ func heapWFAxioms(ts []*Term) []*Term {
 		out = append(out, Forall([]*Term{r}, [][]*Term{{v}}, Implies(And(Gt(r, Int(0)), Lt(r, info.bound)), body)))
 	}
 	return out
+}
+
+
+// usesSymbol: does any of the terms apply the function symbol name?
+func usesSymbol(ts []*Term, name string) bool {
+	seen := map[*Term]bool{}
+	var rec func(t *Term) bool
+	rec = func(t *Term) bool {
+		if seen[t] {
+			return false
+		}
+		seen[t] = true
+		if t.kind == kApp && t.Op == name {
+			return true
+		}
+		for _, a := range t.Args {
+			if rec(a) {
+				return true
+			}
+		}
+		for _, ps := range t.Pats {
+			for _, q := range ps {
+				if rec(q) {
+					return true
+				}
+			}
+		}
+		return false
+	}
+	for _, t := range ts {
+		if rec(t) {
+			return true
+		}
+	}
+	return false
 }
